@@ -145,6 +145,26 @@ def replay(p):
                 g2, hp = fcn.grad_hessp(list(x0), pv, batch=p.get("batch", 3))
                 err = max(np.max(np.abs(np.array([float(v) for v in g2]) - gnum)), np.max(np.abs(np.asarray(hp, dtype=float).reshape(-1) - Hnum @ pv)) / 10)
             scale = 1 + abs(f(x0)) + np.max(np.abs(Hnum))
+        elif kind == "sumvar":
+            import tensorflow as tf
+            from tf_pwa.variable import SumVar
+
+            nf = p["nf"]
+            a0, b0 = float(m.get("th_a", 0.7)), float(m.get("th_b", -1.3))
+            va, vb = tf.Variable(a0, dtype=tf.float64), tf.Variable(b0, dtype=tf.float64)
+            funs = [lambda a, b: a * a * b + 0.3 * a, lambda a, b: a + b * b * b, lambda a, b: tf.sin(a) * b * b]
+            hess = [lambda a, b: [[2 * b, 2 * a], [2 * a, 0.0]], lambda a, b: [[0.0, 0.0], [0.0, 6 * b]], lambda a, b: [[-np.sin(a) * b * b, 2 * b * np.cos(a)], [2 * b * np.cos(a), 2 * np.sin(a)]]]
+            sv = SumVar.from_call_with_hess(lambda: [f(va, vb) for f in funs[:nf]], [va, vb])
+            with tf.GradientTape(persistent=True) as t0:
+                with tf.GradientTape(persistent=True) as t1:
+                    out = sv()
+                g = [t1.gradient(o, [va, vb], unconnected_gradients="zero") for o in out]
+            errs = []
+            for k in range(nf):
+                H = np.array([[float(x) for x in t0.gradient(gi, [va, vb], unconnected_gradients="zero")] for gi in g[k]])
+                errs.append(np.max(np.abs(H - np.array(hess[k](a0, b0), dtype=float))))
+            err = max(errs)
+            scale = 1.0
         elif kind == "bound":
             import re
 
